@@ -1458,6 +1458,7 @@ _METHODS = {
     (SymSet, "remove"): _symset_remove,
     (SymSet, "discard"): _symset_discard,
     (set, "add"): _set_add,
+    (str, "replace"): _ss_call("replace"),
     (list, "append"): _list_append,
     (list, "remove"): _list_remove,
     (list, "index"): _list_index,
@@ -1889,8 +1890,6 @@ def _iter(it, x):
 
 def _sorted(it, xs, **kw):
     xs = list(it.iterate(xs))
-    if has_sym(xs, 2):
-        raise Unsupported("sorted with symbolic content")
     if "key" in kw and kw["key"] is not None:
         k = kw["key"]
         keys = [it.call(k, [x], {}) for x in xs]
@@ -1898,6 +1897,8 @@ def _sorted(it, xs, **kw):
             raise Unsupported("sorted with symbolic keys")
         idx = sorted(range(len(xs)), key=lambda i: keys[i], reverse=bool(kw.get("reverse", False)))
         return [xs[i] for i in idx]
+    if has_sym(xs, 2):
+        raise Unsupported("sorted with symbolic content")
     return sorted(xs, reverse=bool(kw.get("reverse", False)))
 
 
